@@ -1,6 +1,6 @@
 (* C15 - witnesses against the code of the pinned commit (superseded by
    handoff/C15-fix-1..3.diff; Model.v keeps it as the ..._old definitions). *)
-From CfdmV Require Import Common.Base C15.Model C15.Spec C15.Lemmas.
+From CfdmV Require Import Common.Base C15.Model C15.Spec C15.Lemmas C15.Mesh C15.MeshLemmas.
 Open Scope Z_scope.
 
 (* F15a: with start_index = 1 an edge / face domain topology kept the one-based numbers *)
@@ -41,3 +41,15 @@ Theorem C15_second_mesh_start_index_old_refuted :
     cell_conn 0 false stored = [[Some 0; Some 2]; [Some 1; Some 1]].
 Proof. exists [[Some 2]; [Some 1]]. split; vm_compute; reflexivity. Qed.
 Print Assumptions C15_second_mesh_start_index_old_refuted.
+
+(* before C15-fix3-1: no check tied face_face_connectivity to the face dimension (the test in
+   _ugrid_check_connectivity_variable compares the first character of a dimension name and
+   never fails): a variable on another dimension was accepted, the construct had another
+   number of rows than there are faces, and attaching it made the whole read raise; the
+   repaired reader creates no construct from it *)
+Theorem C15_cell_connectivity_rows_old_refuted :
+  exists m n e s c,
+    parse_mesh m = Ok (Some [n; e; Some s]) /\ ls_cc_old s = Some c /\ fst (fst c) <> ls_axis s /\
+    attach_ok_old s = false /\ ls_cc s = None.
+Proof. exact cc_rows_old_refuted. Qed.
+Print Assumptions C15_cell_connectivity_rows_old_refuted.
